@@ -117,6 +117,15 @@ def _cases(draw):
             for r in lst["rows"]:
                 if g.p("_", 0.5):
                     r["7"] = "x"
+    if g.p("_", 0.2):
+        # a mis-named optional sheet: every container must hand its name to the spelling check
+        near = []
+        if "settings" not in form:
+            near += ["setings", "Settings2", "setting"]
+        if "entities" not in form:
+            near += ["entites", "entitie"]
+        if near:
+            form["extra_sheets"] = list(form.get("extra_sheets", [])) + [g.pick(near)]
     form = _sanitize(form)
     form["_langs"] = langs
     kinds = [k for k in NOISES if g.p("_", 0.45)] or [g.pick(NOISES)]
@@ -322,6 +331,47 @@ def deliver(container, payload, how, explicit, stem, tmp, args):
             fh.close()
 
 
+def _compare(out, status, res, sr, rr_, where, tagbase, base, used, form):
+    out.checked("C12.same-outcome")
+    if status == "crash":
+        out.fail("C12.same-outcome", f"crash:{crash_sig(res)}|{tagbase}", f"[{where}] {type(res).__name__}: {res}")
+        return
+    if status != sr:
+        out.fail("C12.same-outcome", f"{sr}->{status}|{tagbase}",
+                 f"[{where}] dict: {sr} {rr_ if sr != 'ok' else ''} / container: {status} {res if status != 'ok' else ''}")
+        return
+    if status == "rejected":
+        out.checked("C12.same-error")
+        if str(res) != str(rr_):
+            out.fail("C12.same-error", tagbase, f"[{where}] dict: {rr_} / container: {res}")
+        return
+    a, b = triple(rr_), triple(res)
+    for field, x, y in zip(("xform", "warnings", "itemsets"), a, b):
+        out.checked("C12." + field)
+        if x != y:
+            detail = ""
+            if field == "xform":
+                try:
+                    detail = xform.canon_diff(xform.canon(xform.parse(x)), xform.canon(xform.parse(y))) or "bytes differ, trees equal"
+                except xform.IllFormed:
+                    detail = "unparseable"
+                kind = "text" if ": text " in detail else "attr" if ": attr " in detail else "structure"
+            else:
+                detail = f"{x!r} vs {y!r}"
+                kind = ""
+            out.fail("C12." + field, f"{kind}|{tagbase}", f"[{where}] {detail}"[:600])
+    # independent of the dict channel: a path delivery supplies the default form id from its stem
+    if used is not None and "form_id" not in form.get("settings", {}) and "id_string" not in form.get("settings", {}):
+        out.checked("C12.stem-id")
+        try:
+            v = xform.XFormView(res.xform)
+            got = v.primary.get("id") if v.primary is not None else None
+        except xform.IllFormed:
+            got = used
+        if got != used:
+            out.fail("C12.stem-id", base, f"[{where}] stem {used!r} but primary instance id {got!r}")
+
+
 def evaluate(case) -> Outcome:
     out = _evaluate(case)
     kinds = case["spec"]["noise"]
@@ -370,6 +420,8 @@ def _evaluate(case) -> Outcome:
     r = rnd(seed, "plan")
     plan = []
     md_ok = render.md_ok(form)
+    if r.random() < 0.35:
+        plan.append(("dict", "noheader", False, "data"))
     for container in ("md", "csv", "xlsx", "xls"):
         if container == "md" and not md_ok:
             out.label("md-cannot-carry")
@@ -389,6 +441,18 @@ def _evaluate(case) -> Outcome:
         payloads = {}
         for cont, how, explicit, stem in plan:
             base = "xlsx" if cont == "xlsm" else cont
+            if cont == "dict":
+                # the documented dict input without *_header keys: headers are the ordered union of the row keys
+                wb_nh = {k: v for k, v in dict_workbook(sheets).items() if not k.endswith("_header")}
+                status, res = common.run_workbook(wb_nh, **args)
+                used = None
+                sr, rr_ = ref_for(False, None)
+                noisy = False
+                out.label("container:dict-noheader")
+                where, tagbase = "dict|noheader", "dict|-"
+                pairs.add((cont, how))
+                _compare(out, status, res, sr, rr_, where, tagbase, base, used, form)
+                continue
             if base not in payloads:
                 try:
                     if base == "md":
@@ -414,44 +478,7 @@ def _evaluate(case) -> Outcome:
             pairs.add((cont, how))
             where = f"{cont}|{how}|{'explicit' if explicit else 'implicit'}"
             tagbase = f"{base}|{blame if noisy else '-'}"
-            out.checked("C12.same-outcome")
-            if status == "crash":
-                out.fail("C12.same-outcome", f"crash:{crash_sig(res)}|{tagbase}", f"[{where}] {type(res).__name__}: {res}")
-                continue
-            if status != sr:
-                out.fail("C12.same-outcome", f"{sr}->{status}|{tagbase}",
-                         f"[{where}] dict: {sr} {rr_ if sr != 'ok' else ''} / container: {status} {res if status != 'ok' else ''}")
-                continue
-            if status == "rejected":
-                out.checked("C12.same-error")
-                if str(res) != str(rr_):
-                    out.fail("C12.same-error", tagbase, f"[{where}] dict: {rr_} / container: {res}")
-                continue
-            a, b = triple(rr_), triple(res)
-            for field, x, y in zip(("xform", "warnings", "itemsets"), a, b):
-                out.checked("C12." + field)
-                if x != y:
-                    detail = ""
-                    if field == "xform":
-                        try:
-                            detail = xform.canon_diff(xform.canon(xform.parse(x)), xform.canon(xform.parse(y))) or "bytes differ, trees equal"
-                        except xform.IllFormed:
-                            detail = "unparseable"
-                        kind = "text" if ": text " in detail else "attr" if ": attr " in detail else "structure"
-                    else:
-                        detail = f"{x!r} vs {y!r}"
-                        kind = ""
-                    out.fail("C12." + field, f"{kind}|{tagbase}", f"[{where}] {detail}"[:600])
-            # independent of the dict channel: a path delivery supplies the default form id from its stem
-            if used is not None and "form_id" not in form.get("settings", {}) and "id_string" not in form.get("settings", {}):
-                out.checked("C12.stem-id")
-                try:
-                    v = xform.XFormView(res.xform)
-                    got = v.primary.get("id") if v.primary is not None else None
-                except xform.IllFormed:
-                    got = used
-                if got != used:
-                    out.fail("C12.stem-id", base, f"[{where}] stem {used!r} but primary instance id {got!r}")
+            _compare(out, status, res, sr, rr_, where, tagbase, base, used, form)
     finally:
         shutil.rmtree(tmp, ignore_errors=True)
     for lab in labels:
